@@ -257,8 +257,8 @@ def sample_cells(rng, n_assign, n_oper):
             lt = "I"
         if op in ("lor", "land") and rng.random() < 0.8:
             lt = "B"
-        rt = rng.choice(defined[lt]) if rng.random() < 0.75 else rng.choice(RTYPES_A)
-        form = rng.choice("vl")
+        rt = rng.choice(defined[lt]) if rng.random() < 0.85 else rng.choice(RTYPES_A)
+        form = "v" if rng.random() < 0.65 else "l"
         lv, rv = _pick(rng, lt, "v"), _pick(rng, rt, form)
         if lv is None or rv is None:
             continue
@@ -268,7 +268,7 @@ def sample_cells(rng, n_assign, n_oper):
     while len(out) - n0 < n_oper:
         op = rng.choice(BOPS + ["concat"])
         lt = rng.choice(TYPES)
-        rt = rng.choice(cmpdef[lt]) if rng.random() < 0.75 else rng.choice(RTYPES_A)
+        rt = rng.choice(cmpdef[lt]) if rng.random() < 0.85 else rng.choice(RTYPES_A)
         lform = "v" if rng.random() < 0.85 else "l"
         form = rng.choice("vl")
         lv, rv = _pick(rng, lt, lform), _pick(rng, rt, form)
